@@ -33,11 +33,12 @@ impl<'a> Plugin for TableAccess<'a> {
         let mut found = None;
 
         let mut check = |relation: &ObjectName| {
-            // Postgres folds unquoted identifiers to lower case and takes quoted ones verbatim:
-            // SECRET, Secret and "secret" all name the table `secret`.
+            // Postgres folds unquoted identifiers to lower case (A-Z only, in a UTF8 database)
+            // and takes quoted ones verbatim: SECRET, Secret and "secret" all name the table `secret`.
+            // Either way it keeps the first 63 bytes.
             let table_name = match relation.0.last() {
-                Some(ident) if ident.quote_style.is_some() => ident.value.clone(),
-                Some(ident) => ident.value.to_lowercase(),
+                Some(ident) if ident.quote_style.is_some() => truncate_identifier(&ident.value),
+                Some(ident) => truncate_identifier(&ident.value.to_ascii_lowercase()),
                 None => return ControlFlow::<()>::Continue(()),
             };
 
@@ -79,4 +80,16 @@ impl<'a> Plugin for TableAccess<'a> {
             Ok(PluginOutput::Allow)
         }
     }
+}
+
+/// Postgres truncates identifiers to NAMEDATALEN - 1 bytes, never splitting a character.
+fn truncate_identifier(name: &str) -> String {
+    const MAX_IDENTIFIER_LEN: usize = 63;
+
+    let mut end = name.len().min(MAX_IDENTIFIER_LEN);
+    while !name.is_char_boundary(end) {
+        end -= 1;
+    }
+
+    name[..end].to_string()
 }
